@@ -260,6 +260,7 @@ func (s *vfSim) getAssoc(side int) *Association {
 func (s *vfSim) onHook(a *Association, side int, ev int, c *chunkPayloadData) {
 	s.register(a, side)
 	atomic.AddInt64(&s.nHook, 1)
+	vfProgress.Add(1)
 	switch ev {
 	case vfEvChunksEnd, vfEvGatherEnd, vfEvTimerEnd:
 		if !s.noInv {
